@@ -7,7 +7,9 @@ RULE = ('SCC streams in pop-on, roll-up and paint-on mode (and mixtures) whose r
         'rows (several lines in one caption) and non-adjacent rows (several captions sharing a start), so '
         'that the long line is first / middle / last of a same-start group. Rows may begin with one or two blanks (cells of the row) and end with one to three blanks (the reader '
         'removes blanks at the end of every line, so they are not part of it). '
-        'A row is addressed once per load '
+        'Reads use the defaults or lang= / simulate_roll_up=True / offset=0 (with simulate_roll_up the reader '
+        'joins the visible roll-up rows into one line: then only "no line over 32 is returned" and "a refusal '
+        'names lines over 32" are demanded). A row is addressed once per load '
         '(text overlaid on a row by a second PAC has no defined "line" in the statement). Oracle from the transmitted '
         'rows alone: some row > 32 => CaptionLineLengthError whose message contains every offending row; '
         'otherwise a normal return in which every line has <= 32 characters. Non-trivial: at least one row '
@@ -17,7 +19,8 @@ REQUIRE = {'streams_with_long_row': 50, 'streams_without_long_row': 50, 'long_ro
            'errors_checked': 50, 'returned_lines_checked': 200, 'mode_roll': 20, 'mode_paint': 20,
            'mode_pop': 20, 'two_long_rows_same_start': 5, 'streams_with_empty_row': 30,
            'rows_of_32_or_more_cells_with_leading_blanks': 20,
-           'rows_over_32_cells_only_through_trailing_blanks': 20}
+           'rows_over_32_cells_only_through_trailing_blanks': 20,
+           'reads_with_option_lang': 50, 'reads_with_option_simulate_roll_up': 50}
 
 LENGTHS = [0, 0, 1, 5, 12, 20, 28, 31, 32, 32, 32, 33, 33, 34, 40]
 
@@ -29,7 +32,14 @@ def cases(ctx):
                             ['pop', 'pop'], ['roll', 'paint'], ['pop', 'roll', 'pop'], ['pop', 'paint', 'pop'],
                             ['pop', 'roll']])
         lengths = LENGTHS if rng.random() < 0.7 else [0, 3, 10, 20, 30, 31, 32]
-        yield {'stream': G.gen_stream(rng, modes=modes, lengths=lengths, tagged=True, trailing=True)}
+        kw = {}
+        if rng.random() < 0.25:
+            kw['lang'] = rng.choice(['fr', 'en-US', 'x-y'])
+        if rng.random() < 0.15:
+            kw['simulate_roll_up'] = True
+        if rng.random() < 0.1:
+            kw['offset'] = 0
+        yield {'stream': G.gen_stream(rng, modes=modes, lengths=lengths, tagged=True, trailing=True), 'read_kwargs': kw}
 
 
 def _len(row):
@@ -79,11 +89,24 @@ def check(case, ctx):
         if sum(1 for n in g if n > 32) >= 2:
             ctx.count('two_long_rows_same_start')
     ctx.count('streams_with_long_row' if long_rows else 'streams_without_long_row')
+    kw = case.get('read_kwargs') or {}
+    lang = kw.get('lang', 'en-US')
+    for k in kw:
+        ctx.count('reads_with_option_' + k)
+    # with simulate_roll_up the reader joins the roll-up rows still on screen into one line and applies the
+    # limit to it: a stream without an over-long row may then be refused as well
+    joined = bool(kw.get('simulate_roll_up')) and any(seg['mode'] == 'roll' for seg in st['segments'])
     try:
-        cs = SCCReader().read(doc)
+        cs = SCCReader().read(doc, **kw)
     except CaptionLineLengthError as e:
         msg = str(e)
         ctx.count('errors_checked')
+        if joined and not long_rows:
+            named = [ln.rsplit(' - Length ', 1) for ln in msg.split('\n') if ' - Length ' in ln]
+            if named and all(len(t.split(' - ', 1)[-1] if t.startswith('around ') else t) > 32 for t, _n in named):
+                ctx.count('joined_roll_up_lines_refused')
+                return []
+            return [{'what': 'line-length error names a line of at most 32 characters', 'message': msg[:400], 'doc': doc}]
         if not long_rows:
             return [{'what': 'line-length error raised although no transmitted row exceeds 32 characters',
                      'message': msg[:400], 'rows': rows, 'doc': doc}]
@@ -99,7 +122,7 @@ def check(case, ctx):
     except Exception as e:
         return [{'what': 'SCCReader raised something else', 'error': repr(e)[:300], 'doc': doc}]
     fails = []
-    returned = [ln for c in cs.get_captions('en-US') for ln in c.get_text().split('\n')]
+    returned = [ln for c in cs.get_captions(lang) for ln in c.get_text().split('\n')]
     ctx.count('returned_lines_checked', len(returned))
     too_long = [ln for ln in returned if len(ln) > 32]
     if too_long:
